@@ -49,18 +49,24 @@ theorem normX_idem (enc : Bool) : ∀ x : Item, normX enc (normX enc x) = normX 
   | .typedNil _ => by simp [normX]
   | .collNil _ => by simp [normX]
   | .irisNil => by simp [normX]
-  | .iri s => by simp [normX]
+  | .iri s => by
+    simp only [normX]; split <;> simp [normX, *]
   | .iris l => by
     simp only [normX]
     apply collapse_fix enc
     intro e he
-    obtain ⟨s, _, rfl⟩ := List.mem_map.mp he
-    simp [normX, isNilItem]
+    obtain ⟨s, hs, rfl⟩ := List.mem_map.mp he
+    have : s.isEmpty = false := by simpa using (List.mem_filter.mp hs).2
+    simp [normX, isNilItem, this]
   | .coll _ l => by
     simp only [normX]
     exact collapse_fix enc _ (normXItems_fix enc l)
   | .node k _ fs => by
-    simp only [normX, normXFields_idem enc fs]
+    have hf := normXFields_idem enc fs
+    simp only [normX]
+    cases h : normXFields enc fs with
+    | nil => simp [normX]
+    | cons n v r => rw [h] at hf; simp only [normX, hf]
 theorem normXItems_fix (enc : Bool) : ∀ l : Items, ∀ e ∈ normXItems enc l, normX enc e = e ∧ isNilItem e = false
   | .nil => by simp [normXItems]
   | .cons i r => by
@@ -134,6 +140,10 @@ theorem collapse_isNil (L : List Item) (h : ∀ e ∈ L, isNilItem e = false) : 
 theorem normXItems_nonnil (e : Bool) : ∀ l : Items, ∀ x ∈ normXItems e l, isNilItem x = false := by
   intro l x hx; exact (normXItems_fix e l x hx).2
 
+def fieldsNil : Fields → Bool
+  | .nil => true
+  | _ => false
+
 mutual
 /-- whether a value normalises to nothing does not depend on the direction -/
 theorem isNil_normX : ∀ x : Item, isNilItem (normX false x) = isNilItem (normX true x)
@@ -147,7 +157,10 @@ theorem isNil_normX : ∀ x : Item, isNilItem (normX false x) = isNilItem (normX
     simp only [normX]
     rw [collapse_isNil _ (normXItems_nonnil false l), collapse_isNil _ (normXItems_nonnil true l)]
     exact isEmpty_normXItems l
-  | .node k _ fs => by simp [normX, isNilItem]
+  | .node k _ fs => by
+    have h := fieldsNil_normX fs
+    simp only [normX]
+    cases h1 : normXFields false fs <;> cases h2 : normXFields true fs <;> simp_all [isNilItem, fieldsNil]
 theorem isEmpty_normXItems : ∀ l : Items, (normXItems false l).isEmpty = (normXItems true l).isEmpty
   | .nil => by simp [normXItems]
   | .cons i r => by
@@ -155,6 +168,41 @@ theorem isEmpty_normXItems : ∀ l : Items, (normXItems false l).isEmpty = (norm
     by_cases h : isNilItem (normX true i) = true
     · simp [h, isEmpty_normXItems r]
     · simp [h]
+theorem fieldsNil_normX : ∀ fs : Fields, fieldsNil (normXFields false fs) = fieldsNil (normXFields true fs)
+  | .nil => by simp [normXFields]
+  | .cons n v r => by
+    have hv := isNone_normXVal v
+    have hr := fieldsNil_normX r
+    simp only [normXFields]
+    cases h1 : normXVal false v <;> cases h2 : normXVal true v
+    · simpa using hr
+    · simp [h1, h2] at hv
+    · simp [h1, h2] at hv
+    · simp [fieldsNil]
+theorem isNone_normXVal : ∀ v : FVal, (normXVal false v).isNone = (normXVal true v).isNone
+  | .item i => by
+    simp only [normXVal, isNil_normX i]
+    by_cases h : isNilItem (normX true i) = true <;> simp [h]
+  | .items l => by
+    have h := isEmpty_normXItems l
+    simp only [normXVal]
+    cases h1 : normXItems false l <;> cases h2 : normXItems true l <;> simp_all
+  | .nlv n => by
+    match n with
+    | [] => simp [normXVal]
+    | [(t, x)] => simp [normXVal]
+    | a :: b :: r => simp [normXVal]
+  | .time s _ _ => by simp [normXVal]
+  | .record fs => by
+    have h := fieldsNil_normX fs
+    simp only [normXVal]
+    cases h1 : normXFields false fs <;> cases h2 : normXFields true fs <;> simp_all [fieldsNil]
+  | .dur d => by simp [normXVal]
+  | .str s => by simp [normXVal]
+  | .dec6 z => by simp [normXVal]
+  | .int z => by simp [normXVal]
+  | .uint n => by simp [normXVal]
+  | .bool b => by simp [normXVal]
 end
 
 theorem normXItems_ofList_map (L : List Item) (h : ∀ e ∈ L, isNilItem (normX true e) = false) :
@@ -187,18 +235,24 @@ theorem normJ_normD : ∀ x : Item, normX true (normX false x) = normX true x
   | .typedNil _ => by simp [normX]
   | .collNil _ => by simp [normX]
   | .irisNil => by simp [normX]
-  | .iri s => by simp [normX]
+  | .iri s => by
+    simp only [normX]; split <;> simp [normX, *]
   | .iris l => by
     simp only [normX]
     apply collapse_fix
     intro e he
-    obtain ⟨s, _, rfl⟩ := List.mem_map.mp he
-    simp [normX, isNilItem]
+    obtain ⟨s, hs, rfl⟩ := List.mem_map.mp he
+    have : s.isEmpty = false := by simpa using (List.mem_filter.mp hs).2
+    simp [normX, isNilItem, this]
   | .coll _ l => by
     simp only [normX]
     rw [normJ_collapse _ (nonnil_after l), normJItems_normD l]
   | .node k _ fs => by
-    simp only [normX, normJFields_normD fs]
+    have hf := normJFields_normD fs
+    simp only [normX]
+    cases h : normXFields false fs with
+    | nil => rw [h] at hf; simp [normXFields] at hf; simp [normX, ← hf]
+    | cons n v r => rw [h] at hf; simp only [normX, hf]
 theorem normJItems_normD : ∀ l : Items, (normXItems false l).map (normX true) = normXItems true l
   | .nil => by simp [normXItems]
   | .cons i r => by
